@@ -51,6 +51,7 @@ def run(ctx):
     ctx.floor("hook_stores", 3)
     ctx.floor("pairings", 5)
     ctx.floor("reload_refresh", 5)
+    ctx.floor("exposure_pairs", 3)
     ctx.assume("item parameters of set_hook_*_name are instances of their annotated classes")
     positive_control(ctx)
     if ctx.tier == "thorough":
@@ -131,6 +132,7 @@ def core(ctx):
     check_lookup(E, doms)
     check_pairing(E)
     check_refresh(E)
+    check_exposure(E, doms)
 
 
 # ---- the hook store -------------------------------------------------------------------------
@@ -585,6 +587,122 @@ def local_defs(f, names):
 
 def is_item_lookup(call):
     return True
+
+
+# ---- (2b) aliasing exposure: what a rename re-resolves through a coarsely keyed hook table ---------------
+NON_NONE_ACCESSORS = {"get_string", "get_raw_string", "get_type", "get_proto", "get_field", "get_method", "get_type_list"}
+
+
+class _ExposureInterp(DexInterp):
+    """iterates a comprehension of abstract items through its representative element; ClassManager resolvers
+    that always return a str / list are not None"""
+
+    def concrete_iter(self, it):
+        if isinstance(it, Comp) and isinstance(it.elt, Obj):
+            return [it.elt]
+        return super().concrete_iter(it)
+
+    def compare(self, op, a, b, node, func):
+        if isinstance(op, (ast.Is, ast.IsNot)):
+            for x, y in ((a, b), (b, a)):
+                if y is None and isinstance(x, Sym) and isinstance(x.op, str) and x.op.startswith("cm.") and x.op[3:] in NON_NONE_ACCESSORS:
+                    return isinstance(op, ast.IsNot)
+        return super().compare(op, a, b, node, func)
+
+
+def reload_reads_hooks(E, cls):
+    """accessors called on the ClassManager while <cls instance>.reload() runs (abstractly, caches filled by the
+    constructor) that reach the hook table -> sorted list"""
+    rl = cls.lookup("reload")
+    if rl is None:
+        return None
+    hit = set()
+
+    def run(asg):
+        calls = []
+        it = _ExposureInterp(E.repo, E.folder, asg=dict(asg), inline_module=E.m,
+                             construct=lambda c: c.name in ITEM_OF or c.name in ("TypeHIdItem", "ProtoHIdItem", "FieldHIdItem", "MethodHIdItem", "ClassHDefItem"),
+                             on_cm_call=lambda name, args, serial: calls.append(name))
+        st = StreamV("buff", index=0)
+        o = it.construct_obj(cls, bind_ctor_args(cls, st, Sym("cm"), Sym("param", "size")))
+        adj = cls.lookup("adjust_idx")
+        if adj is not None:
+            it.call_function(adj, [Sym("param", "prev")], recv=o)
+        mark = len(calls)
+        it.call_function(rl, [], recv=o)
+        return calls[mark:]
+
+    for asg, r in explore(run, max_paths=256):
+        if isinstance(r, Raised):
+            continue
+        for name in r:
+            if hook_reaching(E, name):
+                hit.add(name)
+    return sorted(hit)
+
+
+def check_exposure(E, doms):
+    ctx = E.ctx
+    coarse = sorted(w for w, dd in doms.items() if not (dd & WRITERS[w][1]))
+    if not coarse:
+        ctx.ob("aliasing-exposure", "hook store is item-keyed", True, "every rename is keyed by the renamed item: re-resolving other items cannot alias")
+        return
+    from ..dexmodel import CallGraph
+    cg = CallGraph(E.repo)
+    cg.cmi = E.cmi
+    for mem, cl in E.sections.items():
+        cg.sections[mem] = [("list" if in_list else "inst", E.m.cls(cname)) for cname, in_list in cl]
+    for w, (what, gd) in WRITERS.items():
+        f = E.cm.lookup(w)
+        types = cg.local_types(f)
+        params = f.params()[1:]
+        item_param = params[0] if params else None
+        site = store_site(E, f)
+        hooked = set()
+        if isinstance(site, ast.Call) and site.args:
+            hooked = receivers(site.args[0])
+            if not hooked:
+                for d in local_defs(f, names_in(site.args[0])):
+                    hooked |= receivers(d)
+        hooked.discard("self")
+        own = set(hooked) | ({item_param} if item_param else set())
+        for n in walk_no_nested(f.node):
+            if not (isinstance(n, ast.Call) and isinstance(n.func, ast.Attribute) and n.func.attr == "reload" and not n.args):
+                continue
+            recv = n.func.value
+            if isinstance(recv, ast.Name) and recv.id in own:
+                continue  # the renamed item / the id item whose name was hooked
+            # what is reloaded?
+            label = None
+            if isinstance(recv, ast.Subscript) and isinstance(recv.value, ast.Attribute) and recv.value.attr == E.cmi.table_attr and E.cmi.member_of(recv.slice):
+                label = E.cmi.member_of(recv.slice)
+            elif isinstance(recv, ast.Name):
+                # loop variable over an item set: label by the call that produces the set
+                lp = parent(n)
+                while lp is not None and lp is not f.node and not (isinstance(lp, ast.For) and isinstance(lp.target, ast.Name) and lp.target.id == recv.id):
+                    lp = parent(lp)
+                if isinstance(lp, ast.For):
+                    it = lp.iter
+                    if isinstance(it, ast.Call) and isinstance(it.func, ast.Attribute):
+                        cs = [c for c, pr in cg.resolve_method(it.func, f, types)]
+                        label = "/".join(sorted({c.qualname for c in cs})) + "()" if cs else ast.unparse(it.func)
+                    else:
+                        label = ast.unparse(it)[:40]
+            tys = [c for k, c in cg.expr_types(recv, f, types)]
+            if label is None or not tys:
+                raise AnalysisError("%s: cannot tell what `%s` reloads (shape outside the fragment)" % (f.qualname, ast.unparse(n)))
+            reads = set()
+            for c in tys:
+                r = reload_reads_hooks(E, c)
+                if r is None:
+                    raise AnalysisError("%s: %s has no reload()" % (f.qualname, c.name))
+                reads |= set(r)
+            ctx.count("exposure_pairs")
+            ctx.check("aliasing-exposure", "%s reloads %s" % (w, label), not reads, f, "%s reloads %s" % (w, label),
+                      "while renames are keyed by string index (%s), ClassManager.%s re-resolves %s through the hook table (%s via %s): every item of that "
+                      "set that merely shares a name string with a previously renamed item takes over that name although it was never renamed" % (
+                          ", ".join(coarse), w, label, "/".join(c.name for c in tys) + ".reload()", ", ".join("cm.%s" % a for a in sorted(reads))),
+                      node=n, detail="%s reloads %s: %s" % (w, label, "reads the hook table" if reads else "only cached id-item values, no hook lookup"))
 
 
 # ---- (3c) reload refreshes ------------------------------------------------------------------------------
